@@ -110,3 +110,64 @@ def path_witness(f, start_block, closer_blocks, limit=12):
             elif t[1].get("local"):
                 out.append("%s at %s" % (d.split("::")[-1], F.short_span(t[6])))
     return out[-limit:]
+
+
+def escapes_some_sensitive(fx, f, start_block, closer_blocks):
+    """like `escapes`, but path sensitive for Option locals known to be `Some` along the path
+    (`let (saved, m) = if c { install; (Some(a), Some(b)) } else { (None, None) }` followed by
+    `if let Some(s) = saved { restore }`): the None arm of a match on a known-Some local is not taken"""
+    import mir as M
+    switches = {}
+    for sb, en, place, arms, other, rest in M.enum_switches(fx, f):
+        if en.endswith("option::Option") and not place[1] and "Some" in arms:
+            switches[sb] = (place[0], arms["Some"])
+        elif en.endswith("option::Option") and not place[1] and "None" in arms and "Some" in rest:
+            switches[sb] = (place[0], other)
+
+    def transfer(b, known):
+        k = set(known)
+        for s in f.blocks[b]["s"]:
+            if s[0] != "a" or s[1][1]:
+                continue
+            d = s[1][0]
+            rv = s[2]
+            k.discard(d)
+            k = {x for x in k if not (isinstance(x, tuple) and x[0] == d)}
+            if rv[0] == "agg" and rv[1].get("k") == "adt" and rv[1].get("v") == "Some":
+                k.add(d)
+            elif rv[0] == "agg" and rv[1].get("k") == "tuple":
+                for i, o in enumerate(rv[2]):
+                    if o[0] in ("c", "m") and not o[1][1] and o[1][0] in k:
+                        k.add((d, i))
+            elif rv[0] == "use" and rv[1][0] in ("c", "m"):
+                src = rv[1][1]
+                if not src[1] and src[0] in k:
+                    k.add(d)
+                elif len(src[1]) == 1 and isinstance(src[1][0], list) and src[1][0][0] == "f" and (src[0], src[1][0][1]) in k:
+                    k.add(d)
+        t = f.blocks[b]["t"]
+        if t[0] == "call" and not t[3][1]:
+            k.discard(t[3][0])
+        return frozenset(k)
+
+    seen = set()
+    # facts established inside the start block itself (the install and the tuple are often one block)
+    k0 = transfer(start_block, frozenset())
+    work = [(s, k0) for s in f.succ(start_block)]
+    while work:
+        b, known = work.pop()
+        if (b, known) in seen:
+            continue
+        seen.add((b, known))
+        if b in closer_blocks:
+            continue
+        t = f.blocks[b]["t"]
+        if t[0] == "ret":
+            return b
+        k2 = transfer(b, known)
+        if b in switches and switches[b][0] in k2:
+            work.append((switches[b][1], k2))
+            continue
+        for s in f.succ(b):
+            work.append((s, k2))
+    return None
